@@ -95,23 +95,65 @@ def expected_deps(r2):
     return [(n, str(ht.HTMLDependency(n, v).version)) for n, v, _ in res]
 
 
-def check_case(ctx, base, points, makers, base_outs=None):
+def check_case(ctx, base, points, makers, base_outs=None, route="ctor"):
     try:
-        return _check_case(ctx, base, points, makers, base_outs)
+        return _check_case(ctx, base, points, makers, base_outs, route)
     except Exception as e:
         ctx.violation("render-raises", "building/rendering raised %r" % e, {"base": base, "makers": makers})
         return False
 
 
-def _check_case(ctx, base, points, makers, base_outs):
+def build_by_route(base, points, makers, route):
+    """Different ways for the metadata to arrive in the tree."""
+    if route == "ctor":
+        return gen.build(insert(base, points, makers))
+    if route == "tf":
+        wrapped = [[{"k": "tf", "ret": "list", "c": mk}] for mk in makers]
+        return gen.build(insert(base, points, wrapped))
+    live = gen.build(base)
+    order = sorted(zip(points, makers), key=lambda pm: (pm[0][0], pm[0][1]), reverse=True)
+    for (path, idx), mk in order:
+        node = live
+        for p in path:
+            node = (node.children if isinstance(node, ht.Tag) else node)[p]
+        kids = [gen.build(m) for m in mk]
+        if route == "insert":
+            for k in reversed(kids):
+                node.insert(idx, k)
+        elif route == "slice":
+            target = node.children if isinstance(node, ht.Tag) else node
+            target[idx:idx] = kids
+        else:  # setitem-then-reinsert: replace a neighbour by (metadata, neighbour) via item/slice assignment
+            target = node.children if isinstance(node, ht.Tag) else node
+            if idx < len(target):
+                old = target[idx]
+                target[idx] = kids[0]
+                target[idx + 1:idx + 1] = kids[1:] + [old]
+            else:
+                target.extend(kids)
+    return live
+
+
+ROUTES = ["ctor", "ctor", "ctor", "insert", "insert", "slice", "setitem", "tf"]
+
+
+def _check_case(ctx, base, points, makers, base_outs, route="ctor"):
     is_list = base["k"] == "list"
     if base_outs is None:
         base_outs = renderings(gen.build(base), is_list)
     r2 = insert(base, points, makers)
-    obj2 = gen.build(r2)
-    outs = renderings(obj2, is_list)
+    obj2 = build_by_route(base, points, makers, route)
+    ctx.state("arrival_routes", route)
+    if route == "tf":
+        # an un-expanded tree cannot be asked for markup directly: compare the views that expand first
+        outs = list(base_outs)
+        outs[4] = str(obj2)
+        outs[5] = obj2.render()["html"]
+        outs[6] = obj2._repr_html_()
+    else:
+        outs = renderings(obj2, is_list)
     ctx.count("oracle.metamorphic")
-    wit = {"base": base, "points": [list(map(list, [p[0]])) + [p[1]] for p in points], "makers": makers}
+    wit = {"base": base, "points": [list(map(list, [p[0]])) + [p[1]] for p in points], "makers": makers, "route": route}
     for k, (a, b) in enumerate(zip(base_outs, outs)):
         if a != b:
             wit.update(view=k, base_output=a[:1200], with_metadata=b[:1200])
@@ -129,7 +171,7 @@ def _check_case(ctx, base, points, makers, base_outs):
 
 def replay(ctx, w):
     pts = [(tuple(p[0]), p[1]) for p in w["points"]]
-    check_case(ctx, w["base"], pts, w["makers"])
+    check_case(ctx, w["base"], pts, w["makers"], None, w.get("route", "ctor"))
 
 
 def special_bases(ids):
@@ -188,7 +230,7 @@ def run(ctx):
         for sub in subsets:
             points = [pts[i] for i in sub]
             makers = [meta_maker(rng, counter) for _ in points]
-            ok = check_case(ctx, base, points, makers, base_outs)
+            ok = check_case(ctx, base, points, makers, base_outs, rng.choice(ROUTES))
             ctx.case((base, sub, makers), nontrivial=bool(sub))
             for (path, idx) in points:
                 node = base
